@@ -25,7 +25,10 @@ func IndexFamilies(quick bool) []GenCfg {
 		add(WV(1, 1, 1), 5, 1, false)
 		add(WV(2, 1, 1), 5, 1, false)
 		add(WV(1, 1, 1, 1), 5, 1, false)
+		// a validator that forks twice (and may see its own first fork before forking again)
+		out = append(out, GenCfg{Weights: WV(1, 1).W, IDs: WV(1, 1).IDs, Epoch: 1, N: 6, ForkBudget: 2, MaxLevelSet: 150000, UseForkerOnly: true, ForkerOnly: 0, TwinForks: true})
 	} else {
+		out = append(out, GenCfg{Weights: WV(1, 1).W, IDs: WV(1, 1).IDs, Epoch: 1, N: 8, ForkBudget: 2, MaxLevelSet: 150000, UseForkerOnly: true, ForkerOnly: 0, TwinForks: true})
 		add(WV(1, 1), 8, 0, true)
 		add(WV(1, 1), 6, 2, true)
 		add(WV(3, 1), 6, 2, false)
@@ -110,8 +113,10 @@ func ExploreIndex(c *core.Ctx, report string) {
 							if crit != "" || got != want {
 								if report == "fc" {
 									c.Violation(fmt.Sprintf("fc/%s/got=%v", temp, got), rep(), "ForklessCause(e%d,e%d)=%v %s, graph definition says %v [%s caches] %v", a, b, got, crit, want, temp, rep())
+									return false
 								}
-								return false
+								// the other oracle's mismatch: counted, and this oracle is still evaluated
+								c.Count("other_oracle_mismatches", 1)
 							}
 						}
 						// merged clock
@@ -132,8 +137,9 @@ func ExploreIndex(c *core.Ctx, report string) {
 							if g.IsForkDetected() != fork || (!fork && int(g.Seq) != s) {
 								if report == "clock" {
 									c.Violation(fmt.Sprintf("clock/%s/fork=%v", temp, g.IsForkDetected()), rep(), "merged clock of e%d for validator #%d (id %d): fork=%v seq=%d, graph says fork=%v seq=%d [%s caches] %v", a, v, d.IDs[v], g.IsForkDetected(), g.Seq, fork, s, temp, rep())
+									return false
 								}
-								return false
+								c.Count("other_oracle_mismatches", 1)
 							}
 						}
 					}
